@@ -208,12 +208,19 @@ def gen_api_case(rng, ctx, pool_of_keys, forced=None):
         offs = rng.sample([2, 3, 9, 10, 11, 19, 20, 99, 100, 101, 199, 200, 255, 256, 257, 265, 266, 355, 356, 512, 1000], min(len(picks), 21))
         picks = picks[:len(offs)]
     allocs, seen, meta = [], set(), {}
+    spread = rng.random() < 0.5          # IPs from three address blocks far apart (10/8, 100.64/24, 192.168.5/24)
+    ctx.dist("api:blocks-" + ("three" if spread else "one"))
     for (key, pc, what, fields), off in zip(picks, offs):
         if key in seen or key == "":
             continue        # one IP per key keeps the scenario readable (a key may hold several IPs, not needed here)
         seen.add(key)
-        allocs.append([key, ip_text(off)])
-        meta[ip_text(off)] = (key, pc, what)
+        ipt = ip_text(off)
+        if spread:
+            ipt = [ip_text(off), "100.64.0.%d" % (2 + off % 249), "192.168.5.%d" % (2 + off % 249)][len(allocs) % 3]
+            if ipt in meta:
+                continue
+        allocs.append([key, ipt])
+        meta[ipt] = (key, pc, what)
     pods = []
     for key, pc, what, fields in picks:
         if what == "pod" and rng.random() < 0.15:
